@@ -218,6 +218,18 @@ def apalache(module, inv, length=0, timeout=300):
     if "The outcome is: Error" in p.stdout: return False, p.stdout
     return None, p.stdout
 
+def tlapm(module, timeout=600):
+    """tlapm on a copy of spec/<module>.tla in the scratch directory; returns (number of obligations proved, output); raises Infra unless all are proved"""
+    d = os.path.join(scratch(), "tlaps_" + module); os.makedirs(d, exist_ok=True)
+    shutil.copy(os.path.join(SPEC, module + ".tla"), d)
+    try:
+        p = subprocess.run(["tlapm", module + ".tla"], cwd=d, timeout=timeout, stdout=subprocess.PIPE, stderr=subprocess.STDOUT, text=True)
+    except (subprocess.TimeoutExpired, FileNotFoundError) as e:
+        raise Infra("tlapm %s: %s" % (module, e))
+    m = re.search(r"All (\d+) obligations? proved", p.stdout)
+    if not m: raise Infra("tlapm did not prove %s:\n%s" % (module, p.stdout[-2000:]))
+    return int(m.group(1)), p.stdout
+
 _scratch = None
 def scratch():
     """per-run scratch directory (removed at exit by the caller of cleanup())"""
